@@ -69,6 +69,22 @@ def run(ctx):
     ops = [o for o in atomic_ops(sgr) if on_cell(o[2])]
     cas = [o for o in ops if o[1].startswith("compare_exchange")]
     writes = [o for o in ops if o[1] in WRITES and not o[1].startswith("compare_exchange") and not b.blocks[o[0].bb].get("cleanup")]
+    _writes_all = writes
+    if not cas:
+        # the same election spelled `state.fetch_update(.., |cur| (cur == UNINIT).then_some(INITIALIZING))`: the closure
+        # yields the new state for exactly one old state, so Ok(..) <=> this caller moved UNINIT -> INITIALIZING
+        for o in [o for o in ops if o[1] == "fetch_update"]:
+            cl = [strip_sym(a) for a in o[3] if strip_sym(a)[0] == "agg" and strip_sym(a)[1] == "closure"]
+            cf = m.fn(cl[0][5]) if len(cl) == 1 else None
+            r_ = strip_sym(Sym(cf).local(0)) if cf is not None else None
+            if r_ is not None and sym_is_call(r_, "bool::then_some") and len(r_[2]) == 2:
+                cond, newv = strip_sym(r_[2][0]), strip_sym(r_[2][1])
+                if cond[0] == "bin" and cond[1] == "Eq" and newv[0] == "const":
+                    old_c = [x for x in (strip_sym(cond[2]), strip_sym(cond[3])) if x[0] == "const"]
+                    cur_p = [x for x in (strip_sym(cond[2]), strip_sym(cond[3])) if sym_arg(x) is not None]
+                    if len(old_c) == 1 and len(cur_p) == 1:
+                        cas = [(o[0], "compare_exchange", o[2], [o[3][0], old_c[0], newv] + list(o[3][1:3]))]
+    writes = [o for o in writes if not (cas and o[0].bb == cas[0][0].bb)]  # the electing operation itself is not "another write"
     ok_cas = len(cas) == 1 and cas[0][1] == "compare_exchange"
     chk.ob("C02.a", f"{sgr.path} [one strong CAS elects the installer]", ok_cas, "exactly one compare_exchange on GLOBAL_RECORDER's state" if ok_cas else f"atomic operations on the cell while installing: {[o[1] for o in ops]} — the installer is not elected by one strong compare_exchange (check-then-act, swap or weak CAS break single-winner / spurious hand-back)", sgr.loc())
     if not ok_cas:
